@@ -105,7 +105,27 @@ pub fn c17(ctx: &mut Ctx, acc: &mut Acc) -> i32 {
             .0;
             judge(acc, "exact_size_iterator_too_long", &it, Some("LengthTooLarge"), J::obj().with("len", J::u(n as u64)));
         }
-        // byte containers use 32-bit lengths
+        // byte containers: the length is a count like any other in the format (a JVM array length), so 2^31 bytes and more
+        // must be refused — through the size calculator, over zero pages that are never written, this costs nothing
+        for n in [1usize << 31, (1usize << 31) + 1, u32::MAX as usize] {
+            let big: Vec<u8> = vec![0u8; n];
+            let via_size_calculator = |what: &str, f: &dyn Fn(&mut SerializationContext<desert::SizeCalculator>) -> desert::Result<()>| {
+                let (r, _) = monitored(None, || {
+                    let mut sc = SerializationContext::new(desert::SizeCalculator::new());
+                    f(&mut sc).map_err(|e| classify(&e))?;
+                    Ok(vec![0u8; 0])
+                });
+                (what.to_string(), r)
+            };
+            use desert::BinarySerializer;
+            let cases = [
+                via_size_calculator("Vec<u8>", &|sc| big.serialize(sc)),
+                via_size_calculator("slice_of_u8", &|sc| (&big[..]).serialize(sc)),
+            ];
+            for (what, got) in cases {
+                judge(acc, &format!("{what}_of_2^31_bytes_or_more"), &got, Some("LengthTooLarge"), J::obj().with("len", J::u(n as u64)));
+            }
+        }
         if ctx.thorough() {
             let big: Vec<u8> = vec![0u8; (1usize << 32) + 1]; // untouched zero pages
             judge(acc, "Vec<u8>_over_4GiB", &ser(&big), Some("LengthTooLarge"), J::obj().with("len", J::u(big.len() as u64)));
